@@ -8,6 +8,8 @@ import RawPanelVerif.Model.Topology
   `parseXML` mirrors the control flow of `xmldom.Parse` on that stream: error / document without root / document
   with root.  The tokenizer itself (`encoding/xml`) is a parameter.  The model returns the list of nodes appended
   to the root (`none` = the function returned `nil`, i.e. `GenerateCompositeSVG` returns `""`).
+* What of the base document reaches the printed document (the `go-xmldom` parse/print round trip on the token stream) is
+  modelled separately in `Model/XmldomBase.lean`; `Model/SvgObs.lean` turns it into the flags the harness observes.
 * `printNode` is `(*xmldom.Node).XML()` for a childless node: `<name k="v" …>text</name>` or `<name … />`, values and
   text through `xml.EscapeText` (`escapeText`, with `utf8.DecodeRune` = `decodeRune`, for **all** byte strings:
   invalid UTF-8, control characters, U+FFFE/U+FFFF become U+FFFD).
